@@ -135,14 +135,14 @@ def Div(a, b):
         return float("nan")
 
 
-MARGIN_T = z3.Real("__margin__")  # placeholder in the symbolic robust negations; core.check substitutes a ladder of margins for it
-MARGINS = (MARGIN, 4e-6)          # "clearly false", then "false by more than the concrete comparison tolerance" (deviations of the
-                                  # order of numpy's default allclose tolerances, 1e-5 relative, sit between the two)
+MARGINS = (MARGIN, 4e-6)  # "clearly false", then "false by more than the concrete comparison tolerance" (deviations of the order of numpy's
+                          # default allclose tolerances, 1e-5 relative, sit between the two).  core.check derives the second robust negation
+                          # from the first by substituting the numeral - only when a query came back sat.  (A symbolic margin placeholder in
+                          # every Cond was tried first: the extra nonlinear terms, although never asserted, changed z3's term numbering and
+                          # made one exact-NRA instance 100x slower.)
 
 
 def _scale(a, b):
-    if _sy(a, b):
-        return SymReal(MARGIN_T * (1 + zabs(lift(a)) + zabs(lift(b))))  # native product: linear once the margin is substituted
     return MARGIN * (1.0 + abs(a) + abs(b))
 
 
@@ -189,7 +189,7 @@ def Gt(a, b):
 def IsZero(a):
     """Exact zero test (guards in the code are exact)."""
     if isinstance(a, SymReal):
-        return Cond((a == 0).t, zabs(a.t) >= MARGIN_T)
+        return Cond((a == 0).t, (abs(a) >= MARGIN).t)
     return Cond(bool(a == 0.0), bool(abs(a) >= 0.5 * MARGIN))
 
 
